@@ -110,6 +110,28 @@ def run_directives(spec):
                         judge(sh, name, "#ifndef T_H\n# define T_H\n" + src, {"directive": d, "arg": a}, "directive")
                         # the names the arguments use are macros defined earlier in the file
                         judge(sh, name, DIR_PROLOGUE[(k // 4) % len(DIR_PROLOGUE)] + src, {"directive": d, "arg": a}, "directive")
+    # every name the rule class answers to: a directive is dispatched by its spelling, so each attribute of the class
+    # (and of its bases) is a word the input can reach the code with
+    if spec["shard"] == 0:
+        names = set()
+        try:
+            import norminette.rules.is_preprocessor_statement as m
+            for obj in vars(m).values():
+                if isinstance(obj, type):
+                    for n in dir(obj):
+                        if not n.startswith("__"):
+                            names.add(n[len("check_"):] if n.startswith("check_") else n)
+                            names.add(n)
+        except Exception:
+            names = set()
+        for d in sorted(names - set(DIRECTIVES)):
+            for dd in (d, d.upper()):
+                for a in ("", "A", "NAME", "(", "1 +", "\"x\"", "<x>"):
+                    for tail in ("", "\n", "\n#endif\n"):
+                        src = "#" + dd + (" " + a if a else "") + tail
+                        for name in ("t.c", "t.h"):
+                            judge(sh, name, src, {"directive": dd, "arg": a}, "directive")
+        sh.tally("outcomes", "directive_names_from_the_rule_class", len(names))
     sh.sample({"directive_grid": "%d directives x %d arguments x %d tails x 4 leads x 2 file types x 2 contexts (+ after #define of the names used)" % (
         len(DIRECTIVES), len(DIR_ARGS), len(DIR_TAILS))})
     return sh
@@ -283,6 +305,21 @@ def run_cli_cases(spec):
                              {"mode": "cli", "fname": fname, "data_hex": data.hex()},
                              {"input_class": kind, "exc": bad[1], "where": bad[2], "valid_utf8": valid,
                               "stderr_tail": r.stderr[-400:]})
+            if k % 5 == 0 and not bad:
+                # the same file twice with some of the standard streams on a terminal and the others piped
+                for tty in (("stdout", "stderr"), ("stderr",), ("stdout",), ("stdin", "stdout", "stderr")):
+                    rt = cliobs.run_cli([fname, fname], cwd=d, timeout=120, tty=tty)
+                    sh.case("tty\0" + ",".join(tty) + "\0" + fname + "\0" + repr(data))
+                    sh.count("cli.no_traceback_with_terminal_streams")
+                    sh.tally("outcomes", "cli_tty:" + "+".join(tty) + ":" + str(rt.rc))
+                    if rt.timeout:
+                        sh.inconclusive.append("CLI run on a terminal exceeded the wall-clock watchdog")
+                    elif rt.traceback() or "Traceback (most recent call last)" in rt.stdout or rt.rc is None or rt.rc < 0:
+                        txt = rt.stderr + rt.stdout
+                        lines = [l for l in txt.strip().split("\n") if l.strip()]
+                        sh.violation("cli_traceback_on_terminal", ("+".join(tty), lines[-1].split(":")[0] if lines else "?"),
+                                     {"mode": "cli_tty", "fname": fname, "data_hex": data.hex(), "tty": list(tty)},
+                                     {"tty": list(tty), "rc": rt.rc, "tail": txt[-400:]})
             shutil.rmtree(d, ignore_errors=True)
         sh.sample({"cli_case": cases[0][0], "file": cases[0][1], "bytes": repr(cases[0][2][:60])}, cap=1)
     finally:
@@ -312,6 +349,17 @@ def replay(case, sh):
         r = lexpass.run_pass({"mode": "list", "items": [case["src"]]}, set(), exc_is_violation=True, clock=True)
         sh.violations += r.violations
         sh.evaluations += 1
+    elif case.get("mode") == "cli_tty":
+        d = tempfile.mkdtemp(prefix="nv_c05r_")
+        try:
+            with open(os.path.join(d, case["fname"]), "wb") as f:
+                f.write(bytes.fromhex(case["data_hex"]))
+            rt = cliobs.run_cli([case["fname"], case["fname"]], cwd=d, timeout=120, tty=tuple(case["tty"]))
+            sh.evaluations += 1
+            if rt.traceback() or "Traceback (most recent call last)" in rt.stdout or rt.rc is None or rt.rc < 0:
+                sh.violation("cli_traceback_on_terminal", ("replay",), case, {"rc": rt.rc})
+        finally:
+            shutil.rmtree(d, ignore_errors=True)
     elif case.get("mode") == "cli":
         tmp = tempfile.mkdtemp(prefix="nv_c05r_")
         try:
